@@ -181,6 +181,50 @@ pub(crate) mod deque {
     deque_layout!(x17_deque_4_whole, 4, 1, [0, 4], 4);
 }
 
+// ---- BufferedBytesStream: re-chunking to a fixed buffer size ------------------------------------
+harness! {
+    #[kani::unwind(8)]
+    fn x17_buffered_rechunking() {
+        use super::super::BufferedBytesStream;
+        use std::num::NonZeroUsize;
+        // 5 symbolic bytes arriving as chunks of 2 and 3, re-chunked to 2: outputs 2, 2, 1 bytes, same bytes in order
+        let buf: &'static [u8; 5] = symbolic_buf::<5>();
+        let chunks: [Option<Bytes>; 2] = [Some(Bytes::from_static(&buf[0..2])), Some(Bytes::from_static(&buf[2..5]))];
+        let mut s = BufferedBytesStream::new(Script::<2> { chunks, next: 0, pendings: 0 }, NonZeroUsize::new(2).unwrap());
+        let waker = Waker::noop();
+        let mut cx = Context::from_waker(&waker);
+        let mut pos = 0usize;
+        let mut done = false;
+        let mut polls = 0;
+        while polls < 7 && !done {
+            polls += 1;
+            match Pin::new(&mut s).poll_next(&mut cx) {
+                Poll::Pending => {}
+                Poll::Ready(None) => {
+                    assert!(pos == 5, "nothing is lost");
+                    done = true;
+                }
+                Poll::Ready(Some(Ok(b))) => {
+                    let want = if 5 - pos >= 2 { 2 } else { 5 - pos };
+                    assert!(b.len() == want, "every item has the buffer size, except the last");
+                    let k: usize = kani::any();
+                    kani::assume(k < want);
+                    assert!(b[k] == buf[pos + k], "the bytes come out unchanged and in order");
+                    pos += want;
+                    std::mem::forget(b);
+                }
+                Poll::Ready(Some(Err(e))) => {
+                    std::mem::forget(e);
+                    assert!(false, "no error on a healthy stream");
+                }
+            }
+        }
+        assert!(done);
+        kani::cover!(true);
+        std::mem::forget(s);
+    }
+}
+
 // native replay slot (cargo kani playback): the driver points IPA_VERIF_REPLAY_DIR at a directory
 // holding one file per hook; the generated test calls the harness by its path relative to this module.
 #[cfg(test)]
